@@ -119,8 +119,7 @@ def run(ctx, rep):
         return tag, fmt
     for t, (fn, paths) in sorted(m.dumpers.items(), key=lambda kv: kv[0].__name__):
         seen = set()
-        for val in m.samples(t):
-            p = B.select_path(ctx, paths, val, A.params(fn.node)[0])
+        for val, p in c04.chosen_paths(ctx, m, t, fn, paths, rep, "R19.1"):
             rows += 1
             tag, fmt = first_tag_fmt(p)
             if t in (bytes, tuple):
